@@ -634,10 +634,11 @@ Proof. reflexivity. Qed.
 
 (* ------------------------------------------------------------------ the for_each scope *)
 
-(* What the code does for a Dataset.iterate field evaluated while recalculate_every_time is on
-   (inside / below a for_each template): a new iterator per evaluation, hence always the first
-   record, nothing stored, even with repeat: False.  This is the refutation of C17 for that
-   placement (KNOWN_FINDINGS: call-site-below-for_each). *)
+(* A Dataset.iterate call evaluated while recalculate_every_time is on: a new iterator per
+   evaluation, hence always the first record, nothing stored.  Before the repair of
+   ForEachVariableDefinition.evaluate (KNOWN_FINDINGS, fixed: Dataset.iterate/shuffle below a
+   for_each) every field inside / below a for_each template was evaluated this way; now only the
+   for_each expression itself is, and gen_rows never passes recalc = true down from run_recipe. *)
 Lemma site_draw_recalc_linear sid (x : R) (r : list R) rp (s : st) :
   site_draw R C true sid (mkDs (x :: r) Linear rp) s = ROk R C R x s.
 Proof.
@@ -673,7 +674,7 @@ Lemma gen_rows_eq tid lp sites pass nested friends rc (s : st) :
     match new_iter d (s_orc R C s) with
     | Err e => rerr e (s_out R C s)
     | Ok (it, orc1) =>
-      each_loop R C (fun x => one_row tid sites pass nested friends true (Some x)) (i_rest R it) 0
+      each_loop R C (fun x => one_row tid sites pass nested friends rc (Some x)) (i_rest R it) 0
                 (mkSt R C (s_sites R C s) orc1 (s_out R C s))
     end
   end.
@@ -737,9 +738,8 @@ with occ_list (ts : tmpls) : nat :=
   | TCons t r => occ t + occ_list r
   end.
 
-Definition is_for_each (lp : loop R) : bool := match lp with LForEach _ => true | _ => false end.
-
-(* every occurrence has the arguments d0 and lies outside every for_each scope *)
+(* every occurrence has the arguments d0 (rc = the inherited recalculate_every_time, which
+   nothing in a recipe can turn on for a field any more: false from the root) *)
 Fixpoint sites_ok (rc : bool) (l : list (nat * dsref)) : Prop :=
   match l with
   | [] => True
@@ -748,9 +748,8 @@ Fixpoint sites_ok (rc : bool) (l : list (nat * dsref)) : Prop :=
 
 Fixpoint plain (rc : bool) (t : tmpl) : Prop :=
   match t with
-  | Tmpl _ lp sites _ nested friends =>
-    sites_ok (rc || is_for_each lp) sites /\
-    plain_list (rc || is_for_each lp) nested /\ plain_list (rc || is_for_each lp) friends
+  | Tmpl _ _ sites _ nested friends =>
+    sites_ok rc sites /\ plain_list rc nested /\ plain_list rc friends
   end
 with plain_list (rc : bool) (ts : tmpls) : Prop :=
   match ts with
@@ -983,7 +982,7 @@ Lemma plain_true_occ :
   (forall ts : tmpls, plain_list true ts -> occ_list ts = O).
 Proof.
   apply tmpl_mutind.
-  - intros tid lp sites pass nested IHn friends IHf (Hs & Hn & Hf). cbn [orb] in *.
+  - intros tid lp sites pass nested IHn friends IHf (Hs & Hn & Hf).
     cbn [occ]. rewrite (IHn Hn), (IHf Hf).
     assert (occ_sites sites = O); [|lia].
     clear - Hs. induction sites as [|[k d] sites IH]; cbn [occ_sites sites_ok] in *; [reflexivity|].
@@ -1018,7 +1017,7 @@ Proof.
   apply tmpl_mutind.
   - intros tid lp sites pass nested IHn friends IHf Hocc rc s Hpl Hs.
     cbn [occ] in Hocc. cbn [plain] in Hpl. destruct Hpl as (Hso & Hpn & Hpf).
-    set (rc' := rc || is_for_each lp) in *.
+    set (rc' := rc) in *.
     assert (Hrow : forall fe i s, InvP s [] ->
                holds (fun s' => InvP s' []) GoodOut (one_row tid sites pass nested friends rc' fe i s)).
     { intros fe i s1 Hs1. unfold one_row.
@@ -1046,11 +1045,10 @@ Proof.
         destruct (gen_list friends rc' (emit R C (mkRow tid fe i cs pv) s3)) as [u' s4|e o]; cbn [holds] in *.
         + eapply InvP_frame; eassumption.
         + eapply GoodOut_frame; eassumption. }
-    rewrite gen_rows_eq. destruct lp as [|m|d]; cbn [is_for_each] in rc'.
-    + subst rc'. rewrite orb_false_r in Hrow. apply count_loop_inv; [|assumption]. intros; apply Hrow; assumption.
-    + subst rc'. rewrite orb_false_r in Hrow. apply count_loop_inv; [|assumption]. intros; apply Hrow; assumption.
-    + subst rc'. rewrite orb_true_r in Hrow.
-      destruct (new_iter d (s_orc R C s)) as [[it o1]|e]; [|cbn [holds]; eapply InvP_GoodOut; eassumption].
+    rewrite gen_rows_eq. subst rc'. destruct lp as [|m|d].
+    + apply count_loop_inv; [|assumption]. intros; apply Hrow; assumption.
+    + apply count_loop_inv; [|assumption]. intros; apply Hrow; assumption.
+    + destruct (new_iter d (s_orc R C s)) as [[it o1]|e]; [|cbn [holds]; eapply InvP_GoodOut; eassumption].
       apply each_loop_inv; [intros; apply Hrow; assumption|]. exact Hs.
   - intros _ rc s _ Hs. rewrite gen_list_nil. exact Hs.
   - intros t IHt r IHr Hocc rc s [Hp1 Hp2] Hs. cbn [occ_list] in Hocc.
@@ -1111,8 +1109,8 @@ Proof.
 Qed.
 
 (* C17, placement: follow one Dataset.iterate call site (repeat on, n > 0 records) that lies
-   outside every for_each scope, anywhere in a recipe: top level, friend, nested object, at any
-   depth, next to any other templates and call sites.  The records it hands to the rows, read off
+   anywhere in a recipe: top level, friend, nested object, inside or below for_each templates, at
+   any depth, next to any other templates and call sites.  The records it hands to the rows, read off
    the rows in the order they are written over all iterations, are record 0, 1, .., n-1, 0, 1, ..
    — also when the run ends in an error (for the rows written before it). *)
 Theorem placement_mod_n (sid : nat) (data : list R) iters ts orc rows e :
@@ -1145,8 +1143,8 @@ Proof.
   - cbn [firstn app]. f_equal. apply IH. exact H.
 Qed.
 
-(* C17, placement, no silent reuse: a repeat: False call site outside for_each scopes, anywhere in
-   a recipe, hands out at most n records over the whole run (all rows, all iterations), and they
+(* C17, placement, no silent reuse: a repeat: False call site anywhere in a recipe (also inside or
+   below for_each templates), hands out at most n records over the whole run (all rows, all iterations), and they
    are the file's records in file order.  A run in which more than n rows consume it therefore
    cannot succeed: the model's only way out is the DataGenError of no_silent_reuse. *)
 Theorem placement_norepeat (sid : nat) (data : list R) iters ts orc rows e :
@@ -1342,10 +1340,10 @@ Theorem for_each_general (d : dsref) sites pass nested friends rc (s : st) :
 Proof.
   intros Hn Hf. rewrite gen_rows_eq.
   destruct (new_iter d (s_orc R C s)) as [[it o1]|e] eqn:Hnew.
-  - pose proof (each_loop_mine sites pass nested friends true Hn Hf (i_rest R it) 0
+  - pose proof (each_loop_mine sites pass nested friends rc Hn Hf (i_rest R it) 0
                   (mkSt R C (s_sites R C s) o1 (s_out R C s))) as H.
     cbn [s_out] in H.
-    destruct (each_loop R C (fun x => one_row tid sites pass nested friends true (Some x)) (i_rest R it) 0
+    destruct (each_loop R C (fun x => one_row tid sites pass nested friends rc (Some x)) (i_rest R it) 0
                 (mkSt R C (s_sites R C s) o1 (s_out R C s))) as [u s1|e o].
     + destruct H as (ex & Ho & Hk). exists it, o1, ex. auto.
     + right. destruct H as (ex & Ho & Hk). exists it, o1, ex. auto.
